@@ -24,6 +24,8 @@ def coq_list(xs):
 
 
 MODULE_ALIASES = set()
+MUTATORS = {'append', 'extend', 'insert', 'remove', 'pop', 'clear', 'sort', 'reverse', 'update', 'setdefault', 'popitem',
+            'add', 'discard', 'difference_update', 'intersection_update', 'symmetric_difference_update'}
 
 
 def recv_class(node, local_modules):
@@ -164,7 +166,12 @@ def extract(path):
                     elif r.startswith('module:'):
                         caps.append(('call_module', where, r[7:], f.attr))
                     elif r in ('value', 'const'):
-                        caps.append(('call_value_attr', where, f.attr, ''))
+                        if f.attr in MUTATORS:
+                            # in-place mutation of a value: only safe on containers the function created itself,
+                            # so these sites are keyed by their enclosing function
+                            caps.append(('mutator_call', where, f.attr, ast.unparse(f.value)[:40]))
+                        else:
+                            caps.append(('call_value_attr', where, f.attr, ''))
                     else:
                         caps.append(('unclassified', where, 'call receiver', ast.dump(f)[:60]))
                 else:
@@ -223,7 +230,7 @@ def render(d):
            'Definition caps : list (string * string * string * string) := [']
     seen, rows = set(), []
     for c in d['caps']:
-        key = (c[0], c[2], c[3]) if c[0] not in ('getattr', 'hasattr', 'setattr', 'delattr', 'unclassified', 'call_expr') else c
+        key = (c[0], c[2], c[3]) if c[0] not in ('getattr', 'hasattr', 'setattr', 'delattr', 'unclassified', 'call_expr', 'mutator_call') else c
         if key in seen:
             continue
         seen.add(key)
